@@ -243,11 +243,6 @@ static void abs_havoc_links(void)
 }
 static void abs_heap_insert(heap_head_t *head, heap_node_t *node, heap_node_compare_t cmp)
 {
-#ifdef C03_DEBUG
-	if (g_mcur && IS_NODE(node, g_ua)) REACH("dbg second insert reached");
-	if (g_mcur) REACH("dbg insert with mcur set");
-	if (IS_NODE(node, g_ua)) REACH("dbg insert ua");
-#endif
 	VASSERT(cmp == stream_cmp, "abstract heap: the comparator is stream_cmp");
 	VASSERT(HEAP_ABS_INV(head), "abstract heap: invariant holds when heap_insert is called");
 	VASSERT(IS_NODE(node, g_ucur) || IS_NODE(node, g_ua) || IS_NODE(node, g_ub), "abstract heap: the inserted node is the hh of a known stream");
@@ -304,7 +299,9 @@ __CPROVER_requires(__CPROVER_rw_ok(stream, sizeof(*stream)) && OFF_OK(stream->cl
 __CPROVER_assigns(stream->offset, stream->active, stream->cur_ev, stream->lastclock, stream->deltaclock,
 	DIAG_FRAME, g_ss_n, g_ss_nfail, g_ss_stream, g_ss_ret)
 __CPROVER_ensures(RV == 0 || RV == -1 || RV == 1)
-__CPROVER_ensures(g_ss_n == __CPROVER_old(g_ss_n) + 1 && g_ss_stream == stream && g_ss_ret == RV)
+/* (pointer_equals, not ==: a havocked pointer that is merely assumed equal makes a
+ * SECOND call of the contract infeasible -- measured, HOWTO pitfall 1) */
+__CPROVER_ensures(g_ss_n == __CPROVER_old(g_ss_n) + 1 && __CPROVER_pointer_equals(g_ss_stream, stream) && g_ss_ret == RV)
 __CPROVER_ensures(g_ss_nfail == __CPROVER_old(g_ss_nfail) + (RV == -1 ? 1 : 0))
 /* an inactive stream cannot be stepped */
 __CPROVER_ensures(__CPROVER_old(stream->active) != 0 || RV == -1)
@@ -482,91 +479,89 @@ void h_player_step(void)
 
 /* ============================ player_init ============================ */
 /* BOUNDED: the trace list holds n <= 3 streams (DL_FOREACH is unwound).  The
- * three list positions are the three named streams: g_ucur = 1st, g_ua = 2nd,
- * g_ub = 3rd (absent positions are unrelated dummy streams). */
-int g_pi_n;                              /* streams in the list */
-int g_pi_act0, g_pi_act1, g_pi_act2;     /* pre-state: i-th stream exists and is active */
-int g_pi_uns0, g_pi_uns1, g_pi_uns2;     /* pre-state: unsorted flag of the i-th stream */
-int w_pi_n, w_pi_unsorted;
-WITNESS(player_init);
-#define L0 (trace->streams)
-#define L1 (trace->streams->next)
-#define L2 (trace->streams->next->next)
+ * harness builds the list itself (concrete pointers: 3x faster than a contract
+ * with the list shape in `requires`) and checks the postconditions by assertions
+ * (no frame check in this group); heap calls go to the abstract heap,
+ * stream_step to ca_stream_step.
+ * The three named streams are the three list candidates: g_ucur = s0, g_ua = s1,
+ * g_ub = s2; the first n of them are linked into trace->streams. */
 #define GATE (3600L * 1000L * 1000L * 1000L)
 #define FAR(x, y) ((x)->lastclock - (y)->lastclock > GATE || (y)->lastclock - (x)->lastclock > GATE)
 /* some active stream starts more than one hour away from the first active one */
 #define GATE_VIOLATED ((g_mcur && g_ma && FAR(g_ucur, g_ua)) || (g_mcur && g_mb && FAR(g_ucur, g_ub)) || \
 	(!g_mcur && g_ma && g_mb && FAR(g_ua, g_ub)))
 #define NINS ((g_mcur ? 1 : 0) + (g_ma ? 1 : 0) + (g_mb ? 1 : 0))
+int w_pi_n, w_pi_unsorted, w_pi_act0, w_pi_act1, w_pi_act2;
 
-int c_player_init(struct player *player, struct trace *trace, int unsorted)
-__CPROVER_requires(__CPROVER_is_fresh(player, sizeof(*player)) && __CPROVER_is_fresh(trace, sizeof(*trace)))
-__CPROVER_requires(L0 == NULL || __CPROVER_is_fresh(L0, sizeof(struct stream)))
-__CPROVER_requires(L0 == NULL || L1 == NULL || __CPROVER_is_fresh(L1, sizeof(struct stream)))
-__CPROVER_requires(L0 == NULL || L1 == NULL || L2 == NULL || (__CPROVER_is_fresh(L2, sizeof(struct stream)) && L2->next == NULL))
-__CPROVER_requires(__CPROVER_pointer_equals(g_ucur, L0))
-__CPROVER_requires((L0 != NULL && L1 != NULL && __CPROVER_pointer_equals(g_ua, L1)) ||
-	((L0 == NULL || L1 == NULL) && __CPROVER_is_fresh(g_ua, sizeof(struct stream))))
-__CPROVER_requires((L0 != NULL && L1 != NULL && L2 != NULL && __CPROVER_pointer_equals(g_ub, L2)) ||
-	((L0 == NULL || L1 == NULL || L2 == NULL) && __CPROVER_is_fresh(g_ub, sizeof(struct stream))))
-__CPROVER_requires(g_pi_n == (L0 == NULL ? 0 : L1 == NULL ? 1 : L2 == NULL ? 2 : 3))
-__CPROVER_requires(g_ucur == NULL || CUR_EV_OK(g_ucur))
-__CPROVER_requires(CUR_EV_OK(g_ua))
-__CPROVER_requires(CUR_EV_OK(g_ub))
-__CPROVER_requires((g_ucur == NULL || OFF_OK(g_ucur->clock_offset)) && OFF_OK(g_ua->clock_offset) && OFF_OK(g_ub->clock_offset))
-__CPROVER_requires(g_pi_act0 == (g_pi_n >= 1 && g_ucur->active != 0) && g_pi_act1 == (g_pi_n >= 2 && g_ua->active != 0) &&
-	g_pi_act2 == (g_pi_n >= 3 && g_ub->active != 0))
-__CPROVER_requires((g_pi_n < 1 || g_pi_uns0 == g_ucur->unsorted) && g_pi_uns1 == g_ua->unsorted && g_pi_uns2 == g_ub->unsorted)
-__CPROVER_requires(DIAG_PRE && LOG_PRE && g_mcur == 0 && g_ma == 0 && g_mb == 0 && g_others == 0)
-__CPROVER_requires(WBIND(player_init, w_pi_n == g_pi_n && w_pi_unsorted == unsorted))
-#ifdef C03_DEBUG
-__CPROVER_requires(g_pi_n <= 2 && unsorted != 0)
-#endif
-__CPROVER_assigns(*player, STEP_FRAME(g_ua), g_ua->unsorted, STEP_FRAME(g_ub), g_ub->unsorted, DIAG_FRAME, ABS_FRAME)
-__CPROVER_assigns(g_ucur != NULL: STEP_FRAME(g_ucur), g_ucur->unsorted)
-__CPROVER_ensures(RV == 0 || RV == -1)
-/* initial player state: no current stream, first event pending */
-__CPROVER_ensures(RV != 0 || (player->first_event == 1 && player->stream == NULL && player->trace == trace &&
-	player->unsorted == unsorted && g_npop == __CPROVER_old(g_npop)))
-/* every initially active stream is stepped exactly once, inactive ones never */
-__CPROVER_ensures(RV != 0 || g_ss_n == __CPROVER_old(g_ss_n) + (unsigned) (g_pi_act0 + g_pi_act1 + g_pi_act2))
-/* a stream is in the heap exactly when its first event got loaded */
-__CPROVER_ensures(RV != 0 || (g_mcur == (g_pi_n >= 1 && g_ucur->active != 0) && g_ma == (g_pi_n >= 2 && g_ua->active != 0) &&
-	g_mb == (g_pi_n >= 3 && g_ub->active != 0)))
-__CPROVER_ensures(RV != 0 || ((!g_mcur || (g_pi_act0 && g_ucur->cur_ev != NULL)) && (!g_ma || (g_pi_act1 && g_ua->cur_ev != NULL)) &&
-	(!g_mb || (g_pi_act2 && g_ub->cur_ev != NULL))))
-__CPROVER_ensures(RV != 0 || (HEAP_ABS_INV(&player->heap) && player->heap.size == (size_t) NINS &&
-	player->nprocessed == NINS && g_nins == __CPROVER_old(g_nins) + (unsigned) NINS))
-/* unsorted replay marks every stream unsorted; sorted replay leaves the flags alone */
-__CPROVER_ensures(RV != 0 || unsorted == 0 || ((g_pi_n < 1 || g_ucur->unsorted == 1) && (g_pi_n < 2 || g_ua->unsorted == 1) &&
-	(g_pi_n < 3 || g_ub->unsorted == 1)))
-__CPROVER_ensures(unsorted != 0 || ((g_pi_n < 1 || g_ucur->unsorted == g_pi_uns0) && g_ua->unsorted == g_pi_uns1 && g_ub->unsorted == g_pi_uns2))
-/* failure exactly when a stream_step failed or (sorted replay) the clock gate is exceeded */
-__CPROVER_ensures(RV != -1 || g_err > __CPROVER_old(g_err))
-__CPROVER_ensures(g_ss_nfail == __CPROVER_old(g_ss_nfail) || RV == -1)
-__CPROVER_ensures(g_ss_nfail != __CPROVER_old(g_ss_nfail) || (RV == -1) == (unsorted == 0 && GATE_VIOLATED))
-;
+static struct stream *pi_new_stream(void)
+{
+	struct stream *s = malloc(sizeof(struct stream));
+	__CPROVER_assume(s != NULL);
+	/* stream invariant: cur_ev is NULL or a loaded event */
+	if (nondet_bool()) {
+		s->cur_ev = NULL;
+	} else {
+		s->cur_ev = malloc(sizeof(struct ovni_ev));
+		__CPROVER_assume(s->cur_ev != NULL);
+	}
+	__CPROVER_assume(OFF_OK(s->clock_offset));
+	return s;
+}
+
 void h_player_init(void)
 {
-	struct player *p; struct trace *t; int unsorted;
 	heap_node_compare_t f = stream_cmp; (void) f;
-	WITNESS_ON(player_init);
+	struct player *p = malloc(sizeof(struct player));
+	struct trace *t = malloc(sizeof(struct trace));
+	__CPROVER_assume(p != NULL && t != NULL);
+	struct stream *s0 = pi_new_stream(), *s1 = pi_new_stream(), *s2 = pi_new_stream();
+	int n = nondet_int(), unsorted = nondet_int();
+	__CPROVER_assume(n >= 0 && n <= 3);
+	t->streams = n >= 1 ? s0 : NULL;
+	s0->next = n >= 2 ? s1 : NULL;
+	s1->next = n >= 3 ? s2 : NULL;
+	s2->next = NULL;
+	g_ucur = s0; g_ua = s1; g_ub = s2;
+	g_mcur = 0; g_ma = 0; g_mb = 0; g_others = 0;
+	__CPROVER_assume(DIAG_PRE && LOG_PRE);
+	/* pre-state */
+	int act0 = n >= 1 && s0->active != 0, act1 = n >= 2 && s1->active != 0, act2 = n >= 3 && s2->active != 0;
+	int uns0 = s0->unsorted, uns1 = s1->unsorted, uns2 = s2->unsorted;
+	unsigned ss_n0 = g_ss_n, ss_nfail0 = g_ss_nfail, nins0 = g_nins, npop0 = g_npop, err0 = g_err;
+	w_pi_n = n; w_pi_unsorted = unsorted; w_pi_act0 = act0; w_pi_act1 = act1; w_pi_act2 = act2;
+
 	int r = player_init(p, t, unsorted);
-	if (r == 0 && w_pi_n == 0) REACH("empty trace");
-#ifdef C03_DEBUG
-	if (w_pi_n == 2) REACH("dbg n2");
-	if (w_pi_n == 3) REACH("dbg n3");
-	if (w_pi_n == 2 && g_pi_act0 && g_pi_act1) REACH("dbg n2 both active");
-	if (w_pi_n == 2 && g_mcur && g_ma) REACH("dbg n2 both inserted");
-	if (r == 0 && w_pi_n == 2 && g_mcur && g_ma) REACH("dbg n2 both inserted ok");
-	if (r == 0 && w_pi_n == 3) REACH("dbg n3 ok");
-	if (r == 0 && w_pi_n == 3 && g_mcur) REACH("dbg n3 ok first");
-	if (w_pi_n == 3 && g_mcur && g_ma && g_mb) REACH("dbg n3 all inserted");
-#endif
-	if (r == 0 && w_pi_n == 3 && g_mcur && g_ma && g_mb) REACH("three streams loaded");
-	if (r == 0 && w_pi_n == 3 && g_mcur && !g_ma && g_mb && g_pi_act1) REACH("middle stream has no event");
-	if (r == 0 && w_pi_n == 2 && !g_pi_act0 && g_ma) REACH("inactive stream skipped");
-	if (r == 0 && w_pi_unsorted) REACH("unsorted replay");
-	if (r == -1 && g_ss_ret == -1) REACH("a first step failed");
-	if (r == -1 && g_ss_ret != -1 && !w_pi_unsorted) REACH("clock gate exceeded");
+
+	VASSERT(r == 0 || r == -1, "player_init returns 0 or -1");
+	/* initial player state: no current stream, first event pending */
+	VASSERT(r != 0 || (p->first_event == 1 && p->stream == NULL && p->trace == t && p->unsorted == unsorted && g_npop == npop0),
+		"accepted: no current stream, first event pending, nothing popped");
+	/* every initially active stream is stepped exactly once, inactive ones never */
+	VASSERT(r != 0 || g_ss_n == ss_n0 + (unsigned) (act0 + act1 + act2), "each initially active stream is stepped exactly once, no other");
+	/* a stream is in the heap exactly when its first event got loaded */
+	VASSERT(r != 0 || (g_mcur == (n >= 1 && s0->active != 0) && g_ma == (n >= 2 && s1->active != 0) && g_mb == (n >= 3 && s2->active != 0)),
+		"a stream is a heap member exactly when it is (still) active");
+	VASSERT(r != 0 || ((!g_mcur || (act0 && s0->cur_ev != NULL)) && (!g_ma || (act1 && s1->cur_ev != NULL)) && (!g_mb || (act2 && s2->cur_ev != NULL))),
+		"every heap member has its first event loaded");
+	VASSERT(r != 0 || (HEAP_ABS_INV(&p->heap) && p->heap.size == (size_t) NINS && p->nprocessed == NINS && g_nins == nins0 + (unsigned) NINS),
+		"heap size = number of insertions = nprocessed");
+	/* unsorted replay marks every stream unsorted; sorted replay leaves the flags alone */
+	VASSERT(r != 0 || unsorted == 0 || ((n < 1 || s0->unsorted == 1) && (n < 2 || s1->unsorted == 1) && (n < 3 || s2->unsorted == 1)),
+		"unsorted replay: every stream of the trace is marked unsorted");
+	VASSERT(unsorted != 0 || (s0->unsorted == uns0 && s1->unsorted == uns1 && s2->unsorted == uns2), "sorted replay: unsorted flags untouched");
+	VASSERT((n >= 1 || s0->unsorted == uns0) && (n >= 2 || s1->unsorted == uns1) && (n >= 3 || s2->unsorted == uns2), "streams outside the trace untouched");
+	/* failure exactly when a stream_step failed or (sorted replay) the clock gate is exceeded */
+	VASSERT(r != -1 || g_err > err0, "failure is diagnosed");
+	VASSERT(g_ss_nfail == ss_nfail0 || r == -1, "a failed stream_step fails player_init");
+	VASSERT(g_ss_nfail != ss_nfail0 || (r == -1) == (unsorted == 0 && GATE_VIOLATED),
+		"without step failure: refused exactly when (sorted replay) a first clock is more than 1 h away from the first stream's");
+
+	if (r == 0 && n == 0) REACH("empty trace");
+	if (r == 0 && n == 3 && g_mcur && g_ma && g_mb) REACH("three streams loaded");
+	if (r == 0 && n == 3 && g_mcur && !g_ma && g_mb && act1) REACH("middle stream has no event");
+	if (r == 0 && n == 2 && !act0 && g_ma) REACH("inactive stream skipped");
+	if (r == 0 && unsorted && g_mcur && g_ma) REACH("unsorted replay");
+	if (r == -1 && g_ss_nfail != ss_nfail0) REACH("a first step failed");
+	if (r == -1 && g_ss_nfail == ss_nfail0 && g_mcur && g_ma) REACH("clock gate exceeded");
+	if (r == 0 && !unsorted && g_mcur && g_ma && s0->lastclock != s1->lastclock) REACH("two streams within the gate");
 }
